@@ -1,0 +1,30 @@
+// Verification hook (build tag "verif" only): exposes the unexported ACME JWS helpers to an
+// external harness. It adds no behaviour to normal builds.
+
+//go:build verif
+// +build verif
+
+package acme
+
+import (
+	"crypto"
+
+	"github.com/ossrs/go-oryx-lib/https/jose"
+)
+
+// VerifSignContent signs content as the ACME client does, taking nonces from the given pool
+// instead of the network.
+func VerifSignContent(privKey crypto.PrivateKey, nonces []string, content []byte) (*jose.JsonWebSignature, error) {
+	j := &jws{privKey: privKey, nonces: nonces}
+	return j.signContent(content)
+}
+
+// VerifKeyAuthorization is getKeyAuthorization.
+func VerifKeyAuthorization(token string, key interface{}) (string, error) {
+	return getKeyAuthorization(token, key)
+}
+
+// VerifKeyAsJWK is keyAsJWK.
+func VerifKeyAsJWK(key interface{}) *jose.JsonWebKey {
+	return keyAsJWK(key)
+}
